@@ -149,7 +149,12 @@ impl mpsc::Sender<Packet> {
 }
 
 //@item iroh-relay/src/server/client.rs struct Packet pubfields
-//@item iroh-relay/src/server/client.rs struct Client keep=endpoint_id,packet_queue pubfields
+pub struct CancellationToken { pub id: int }
+impl CancellationToken {
+    #[verifier::external_body] pub fn is_cancelled(&self) -> bool { unimplemented!() }
+    #[verifier::external_body] pub fn cancel(&self) { unimplemented!() }
+}
+//@item iroh-relay/src/server/client.rs struct Client keep=endpoint_id,packet_queue,done pubfields pub
 
 impl Client {
 //@fn iroh-relay/src/server/client.rs Client::try_send_packet props=C04,C05 ret=r
@@ -161,7 +166,7 @@ impl Client {
 }
 
 // ---- the registry (DashMap): a lookup yields the entry registered under exactly that key, or nothing
-pub struct ClientState { pub active: Client }
+//@item iroh-relay/src/server/clients.rs struct ClientState pubfields pub
 pub uninterp spec fn registered(c: Clients, id: EndpointId, st: ClientState) -> bool;
 pub struct ClientsMap;
 pub struct SentToMap;
